@@ -105,7 +105,7 @@ func (p *Prog) NamesSnapshot() map[string][]declVar {
 			continue
 		}
 		if dv := p.DeclaredVars(fn); len(dv) > 0 {
-			out[fn.String()] = dv
+			out[FnString(fn)] = dv
 		}
 	}
 	return out
@@ -125,7 +125,7 @@ func (p *Prog) loadNameAliases() {
 		return
 	}
 	for _, fn := range p.Funcs {
-		old, ok := snap[fn.String()]
+		old, ok := snap[FnString(fn)]
 		if !ok {
 			continue
 		}
